@@ -12,7 +12,8 @@ EXTRA_FILES = {
             'dbus/dbus-server-debug-pipe.c', 'bus/config-parser.c', 'dbus/dbus-sysdeps-unix.c'],
     'C06': ['bus/config-parser-common.c'],
     'C11': ['dbus/dbus-connection.c'],
-    'C19': ['bus/activation-helper-bin.c'],
+    'C19': ['bus/activation-helper-bin.c', 'bus/config-parser-trivial.c'],
+    'C14': ['bus/config-parser.c', 'bus/config-parser-common.c', 'bus/policy.c', 'bus/config-loader-expat.c'],
 }
 
 # callees whose FALSE is an answer, not a failure, or whose failure is best-effort by design
@@ -1068,6 +1069,185 @@ def list_walks(ck, prog):
         r.skip('no list walk in %s' % ', '.join(sorted(files)))
 
 
+# ---------------------------------------------------------------------------
+# the boolean function a compound condition computes
+
+def _logic_leaves(e, out):
+    while isinstance(e, dict) and e.get('k') in ('paren', 'cast') and isinstance(e.get('e'), dict):
+        e = e['e']
+    if isinstance(e, dict) and e.get('k') == 'call' and e.get('callee') == '__builtin_expect' and e.get('args'):
+        return _logic_leaves(e['args'][0], out)
+    if isinstance(e, dict) and e.get('k') == 'bin' and e.get('op') in ('&&', '||'):
+        _logic_leaves(e['l'], out)
+        _logic_leaves(e['r'], out)
+        return
+    if isinstance(e, dict) and e.get('k') == 'un' and e.get('op') == '!':
+        return _logic_leaves(e['e'], out)
+    if isinstance(e, dict) and e.get('k') == 'bin' and e.get('op') in ('==', '!=') and \
+            (is_int(e['r'], 0) or is_int(e['l'], 0)):
+        # x != 0 / x == NULL: the leaf is x (with the polarity folded into the evaluation)
+        out.append(e)
+        return
+    out.append(e)
+
+
+def _logic_eval(e, val):
+    from .cfg import estr
+    while isinstance(e, dict) and e.get('k') in ('paren', 'cast') and isinstance(e.get('e'), dict):
+        e = e['e']
+    if isinstance(e, dict) and e.get('k') == 'call' and e.get('callee') == '__builtin_expect' and e.get('args'):
+        return _logic_eval(e['args'][0], val)
+    if isinstance(e, dict) and e.get('k') == 'bin' and e.get('op') in ('&&', '||'):
+        a, b = _logic_eval(e['l'], val), _logic_eval(e['r'], val)
+        return (a and b) if e['op'] == '&&' else (a or b)
+    if isinstance(e, dict) and e.get('k') == 'un' and e.get('op') == '!':
+        return not _logic_eval(e['e'], val)
+    return val[estr(e)]
+
+
+def condition_tables(f):
+    """{'leaf1 | leaf2 | ...': [truth table bits, ...]} for every compound (&&, ||) condition of f; a table is
+    normalised so that the all-false row is 0 (a condition and its negation are the same entry, since inverting a
+    test and swapping its branches is not a change)."""
+    from .cfg import estr
+    import itertools
+    tops = []
+    for b, i, ev in f.events():
+        e = ev.get('init') if ev['ev'] == 'decl' else ev.get('e')
+        if ev['ev'] == 'assign' and isinstance(e, dict):
+            e = e.get('r')
+        tops.append(e)
+    for blk in f.blocks.values():
+        t = blk.get('term')
+        if t and t.get('cond') is not None and t.get('kind') not in ('BinaryOperator',):
+            tops.append(t['cond'])
+    out = {}
+    seen = set()
+    for top in tops:
+        if not isinstance(top, dict):
+            continue
+        x = top
+        while isinstance(x, dict) and x.get('k') in ('paren', 'cast') and isinstance(x.get('e'), dict):
+            x = x['e']
+        while isinstance(x, dict) and x.get('k') == 'un' and x.get('op') == '!':
+            x = x['e']
+        if isinstance(x, dict) and x.get('k') == 'call' and x.get('callee') == '__builtin_expect' and x.get('args'):
+            x = x['args'][0]
+        if not (isinstance(x, dict) and x.get('k') == 'bin' and x.get('op') in ('&&', '||')):
+            continue
+        leaves = []
+        _logic_leaves(top, leaves)
+        names = sorted(set(estr(l) for l in leaves))
+        if len(names) < 2 or len(names) > 8:
+            continue
+        key = ' | '.join(names)
+        sig = (key, estr(top))
+        if sig in seen:
+            continue
+        seen.add(sig)
+        bits = []
+        for vals in itertools.product((False, True), repeat=len(names)):
+            bits.append(bool(_logic_eval(top, dict(zip(names, vals)))))
+        if bits[0]:
+            bits = [not b2 for b2 in bits]
+        out.setdefault(key, []).append(''.join('1' if b2 else '0' for b2 in bits))
+    # conditions whose top-level operator is && / ||: the CFG splits them into one block per operand (the branch
+    # statement's own condition is only the last operand), so the boolean function is read off the decision graph
+    preds = f.preds()
+    for did, dblk in f.blocks.items():
+        t = dblk.get('term')
+        if not t or t.get('cond') is None or t.get('kind') in ('BinaryOperator', 'ConditionalOperator', 'SwitchStmt') \
+                or len(dblk['succs']) != 2:
+            continue
+        region = set()
+        allowed = {did} | set(dblk['succs'])
+        changed = True
+        while changed:
+            changed = False
+            for x in list(region | {did}):
+                for p in preds.get(x, ()):
+                    if p in region or p == did:
+                        continue
+                    pt = f.blocks[p].get('term') or {}
+                    if pt.get('kind') == 'BinaryOperator' and pt.get('cond') is not None \
+                            and all(sx in region or sx in allowed for sx in f.blocks[p]['succs']):
+                        region.add(p)
+                        changed = True
+        if not region:
+            continue
+        entries = [x for x in region if any(p not in region for p in preds.get(x, ())) or not preds.get(x)]
+        if len(entries) != 1:
+            continue
+        names = sorted(set([estr(f.blocks[x]['term']['cond']) for x in region] + [estr(t['cond'])]))
+        if len(names) < 2 or len(names) > 8:
+            continue
+        targets = dblk['succs']
+        bits = []
+        ok = True
+        for vals in itertools.product((False, True), repeat=len(names)):
+            env = dict(zip(names, vals))
+            cur = entries[0]
+            for _ in range(len(region) + 2):
+                blk = f.blocks[cur]
+                tt = blk.get('term') or {}
+                if cur != did and cur not in region:
+                    break
+                v = env[estr(tt['cond'])]
+                cur = blk['succs'][0] if v else blk['succs'][1]
+                if cur < 0:
+                    ok = False
+                    break
+            if not ok or cur not in targets:
+                ok = False
+                break
+            bits.append(cur == targets[0])
+        if not ok:
+            continue
+        if bits[0]:
+            bits = [not b2 for b2 in bits]
+        key = ' | '.join(names)
+        out.setdefault(key, []).append(''.join('1' if b2 else '0' for b2 in bits))
+    return {k: sorted(v) for k, v in out.items()}
+
+
+def condition_functions(ck, prog):
+    pid = ck.pid
+    files = anchor_files(pid)
+    path = os.path.join(VERIF, 'engine', 'baseline_profiles.json')
+    if not os.path.exists(path):
+        return
+    with open(path) as fh:
+        base = json.load(fh).get(getattr(ck, 'variant', 'A'), {})
+    r = ck.rule(pid + '.T', 'compound conditions compute the boolean function they compute in the reference tree, in this '
+                'property\'s files: for every condition built with && / ||, the truth table over its operands (up to '
+                'negation of the whole, operands identified by their spelling) is unchanged', 'DEC',
+                breaks='an `&&` that became `||` (or the reverse), or a lost / added `!` on one operand: the branch is '
+                       'taken in a state in which it must not be, typically one that ordinary use never reaches',
+                floor=0)
+    n = 0
+    for f in prog.funcs.values():
+        if f.file not in files or not prog.is_production(f):
+            continue
+        ref = base.get(f.file, {}).get(f.name, {}).get('T')
+        if not ref:
+            continue
+        cur = condition_tables(f)
+        for key, tabs in cur.items():
+            if key not in ref or len(ref[key]) != len(tabs):
+                continue
+            n += 1
+            k2 = '%s:%s' % (f.name, key[:80])
+            if sorted(ref[key]) == sorted(tabs):
+                r.ok(k2)
+            else:
+                r.violation(k2, f.name, f.file, f.line,
+                            'the condition over {%s} computes a different boolean function than in the reference tree '
+                            '(truth table %s, reference %s; rows in the order of the sorted operands, all-false first)'
+                            % (key, ','.join(tabs), ','.join(ref[key])))
+    if n == 0:
+        r.skip('no compound condition with a counterpart in the reference profile in %s' % ', '.join(sorted(files)))
+
+
 def run(ck, prog):
     error_discipline(ck, prog)
     onebit_stores(ck, prog)
@@ -1079,3 +1259,4 @@ def run(ck, prog):
     argument_roles(ck, prog)
     more_profiles(ck, prog)
     list_walks(ck, prog)
+    condition_functions(ck, prog)
